@@ -300,7 +300,7 @@ META["C05"] = dict(engine="dkg", note=DKG_NOTE,
          "cross-check accepted; it never reaches a programming-error panic. For n parties with arbitrary Byzantine ones: all honest "
          "parties that return Ok return identical (tpk, pks); the keys lie on one polynomial of degree < t with tpk = g^p(0) and "
          "sk_i = p(i) (hence any >= t of them sign under tpk), t = n included; a key off the polynomial or not matching its commitment "
-         "=> no honest Ok. Tie: 18 scripted deviations x victim sets x (n,t) x schedules on real TBLS (TPS: monitors) with exact "
+         "=> no honest Ok. Tie: 31 scripted deviations x victim sets x (n,t) x schedules on real TBLS (TPS: monitors) with exact "
          "replay on the model (TPS through its first key component); a schedule family without per-link FIFO (directed: a de-commitment "
          "overtakes its commitment, a share arrives after all commitments; random) for TBLS and TPS, honest and with a deviating "
          "participant; equivocating participant with/without self-acks on the full stack.")
